@@ -36,6 +36,11 @@ func VerifC17_AppendBinary() {
 	out, err := e.AppendBinary(buf[:n])
 	vcheck("no-error", err == nil)
 	vcheck("len", len(out) == n+8)
+	// two results of MarshalBinary held at the same time stay independent
+	mb1, _ := e.MarshalBinary()
+	mb2, _ := e2.MarshalBinary()
+	var m1, m2 Entity
+	vcheck("two-marshal-results-independent", m1.UnmarshalBinary(mb1) == nil && m2.UnmarshalBinary(mb2) == nil && m1 == e && m2 == e2)
 	keep := true
 	for i := 0; i < n; i++ {
 		keep = keep && out[i] == pre[i]
